@@ -806,10 +806,278 @@ func runC19HB(t *testing.T, x c19HB, verbose bool) (c vfCase) {
 	return c
 }
 
+// ---- Karn's rule over generated loss / acknowledgement patterns ----
+//
+// A real sender writes a few single-chunk messages; the puppet receiver pretends not to
+// have received the first Lose[i] copies of chunk i and otherwise is an honest receiver
+// that acknowledges (cumulative point + gap blocks) every packet it accepts, plus extra
+// duplicate acknowledgements at generated instants. At every acknowledgement the sender's
+// (SRTT, RTTVAR) before and after are compared: they may change only by one RFC 6298
+// update whose sample is the exact round trip of a chunk that this acknowledgement newly
+// covers and that had been transmitted exactly once.
+
+type c19Karn struct {
+	IL      bool   `json:"il"`
+	RTOMax  int    `json:"rtomax"`
+	TSN     uint32 `json:"tsn"`
+	Sizes   []int  `json:"sizes"`
+	Batch2  int    `json:"batch2"`  // index from which messages are written later
+	Batch2M int    `json:"batch2m"` // ... this many ms later
+	Lose    []int  `json:"lose"`    // per chunk: how many initial copies the receiver loses
+	DelayMs []int  `json:"delay"`   // per accepted packet (cyclic): delay before the acknowledgement is sent
+	Extra   []int  `json:"extra"`   // instants (ms) of extra duplicate acknowledgements
+}
+
+func genC19Karn(rt *rapid.T) c19Karn {
+	x := c19Karn{IL: rapid.Bool().Draw(rt, "il"), RTOMax: rapid.SampledFrom([]int{2000, 4000, 0}).Draw(rt, "rtomax"), TSN: genTSN(rt, "tsn", 8448)}
+	n := rapid.IntRange(1, 8).Draw(rt, "n")
+	for i := 0; i < n; i++ {
+		x.Sizes = append(x.Sizes, rapid.SampledFrom([]int{1, 10, 500, 1000}).Draw(rt, "size"))
+		x.Lose = append(x.Lose, rapid.SampledFrom([]int{0, 0, 1, 1, 2, 3}).Draw(rt, "lose"))
+	}
+	if rapid.Bool().Draw(rt, "flightlost") {
+		// a whole flight lost: no valid sample exists for any of its chunks
+		for i := range x.Lose {
+			if x.Lose[i] == 0 {
+				x.Lose[i] = 1
+			}
+		}
+	}
+	x.Batch2 = rapid.IntRange(1, n).Draw(rt, "batch2")
+	x.Batch2M = rapid.SampledFrom([]int{5, 300, 1200, 3500}).Draw(rt, "batch2m")
+	nd := rapid.IntRange(1, 4).Draw(rt, "nd")
+	for i := 0; i < nd; i++ {
+		x.DelayMs = append(x.DelayMs, rapid.SampledFrom([]int{0, 0, 30, 150, 700}).Draw(rt, "delay"))
+	}
+	ne := rapid.IntRange(0, 3).Draw(rt, "nextra")
+	for i := 0; i < ne; i++ {
+		x.Extra = append(x.Extra, rapid.IntRange(1, 9000).Draw(rt, "extra"))
+	}
+	return x
+}
+
+func runC19Karn(t *testing.T, x c19Karn, verbose bool) (c vfCase) {
+	var e1 vfE1
+	e1.Cfg[0] = vfSideCfg{IL: x.IL, TSN: x.TSN, RTOMax: x.RTOMax}
+	pm := vfBubble(t, func() {
+		s := newVfSim(t, &e1, verbose)
+		p := newVfPuppet(s, 1, vfPuppetCfg{IL: x.IL, TSN: 7000})
+		defer func() {
+			if c.Verdict != "" || verbose {
+				c.Detail = s.history(200)
+			}
+			s.closeAll()
+		}()
+		if !p.connectAsServer(30 * time.Second) {
+			c.fail("puppet-handshake", "handshake with puppet failed")
+			return
+		}
+		s.afterEstablished()
+		a := s.as[0]
+		copies := map[uint32]int{}  // copies that reached the receiver
+		var due []time.Duration     // instants at which an acknowledgement is to be sent
+		nAccepted := 0
+		p.onPacket = func(pk *wPacket) {
+			acc := false
+			for i := range pk.Chunks {
+				ch := &pk.Chunks[i]
+				if ch.Type != wtDATA && ch.Type != wtIDATA {
+					continue
+				}
+				idx := int(ch.TSN - x.TSN)
+				copies[ch.TSN]++
+				if idx >= 0 && idx < len(x.Lose) && copies[ch.TSN] <= x.Lose[idx] {
+					continue // lost
+				}
+				p.modelRecv(ch.TSN)
+				acc = true
+			}
+			if acc {
+				due = append(due, s.net.now()+time.Duration(x.DelayMs[nAccepted%len(x.DelayMs)])*time.Millisecond)
+				nAccepted++
+			}
+		}
+		t0 := s.net.now()
+		for _, e := range x.Extra {
+			due = append(due, t0+time.Duration(e)*time.Millisecond)
+		}
+		// first transmission instants and number of transmissions so far, from the wire
+		txInfo := func(upTo time.Duration) (first map[uint32]time.Duration, n map[uint32]int) {
+			first, n = map[uint32]time.Duration{}, map[uint32]int{}
+			s.net.mu.Lock()
+			defer s.net.mu.Unlock()
+			for i := range s.net.wire {
+				ev := &s.net.wire[i]
+				if ev.Side != 0 || ev.P == nil || ev.T > upTo {
+					continue
+				}
+				for k := range ev.P.Chunks {
+					ch := &ev.P.Chunks[k]
+					if ch.Type == wtDATA || ch.Type == wtIDATA {
+						if n[ch.TSN] == 0 {
+							first[ch.TSN] = ev.T
+						}
+						n[ch.TSN]++
+					}
+				}
+			}
+			return
+		}
+		rtt := func() (float64, float64) {
+			a.rtoMgr.mutex.RLock()
+			defer a.rtoMgr.mutex.RUnlock()
+			return a.rtoMgr.srtt, a.rtoMgr.rttvar
+		}
+		acked := map[uint32]bool{}
+		samples, karnCases := 0, 0
+		for i := 0; i < x.Batch2 && i < len(x.Sizes); i++ {
+			s.doWrite(0, 1, x.Sizes[i], 53)
+		}
+		wrote2 := x.Batch2 >= len(x.Sizes)
+		end := t0 + 40*time.Second
+		for s.net.now() < end && c.Verdict == "" {
+			// next instant of interest
+			next := end
+			di := -1
+			for i, d := range due {
+				if d < next {
+					next, di = d, i
+				}
+			}
+			if !wrote2 && t0+time.Duration(x.Batch2M)*time.Millisecond <= next {
+				s.o.settle(t0 + time.Duration(x.Batch2M)*time.Millisecond - s.net.now())
+				for i := x.Batch2; i < len(x.Sizes); i++ {
+					s.doWrite(0, 1, x.Sizes[i], 53)
+				}
+				wrote2 = true
+				continue
+			}
+			if di < 0 {
+				if wrote2 && a.BufferedAmount() == 0 {
+					break
+				}
+				s.o.settle(100 * time.Millisecond)
+				continue
+			}
+			if d := next - s.net.now(); d > 0 {
+				// packets arriving meanwhile add to due: advance in small steps
+				if d > 5*time.Millisecond {
+					d = 5 * time.Millisecond
+				}
+				s.o.settle(d)
+				continue
+			}
+			due = append(due[:di], due[di+1:]...)
+			// one acknowledgement, observed in isolation
+			sack := p.sackChunk()
+			s0, v0 := rtt()
+			sentAt := s.net.now()
+			p.send(sack)
+			s.o.settle(11 * time.Millisecond) // network latency is 10.137 ms
+			s1, v1 := rtt()
+			arrive := sentAt + 10137*time.Microsecond
+			first, ntx := txInfo(arrive)
+			var newly []uint32
+			covered := func(tsn uint32) bool {
+				if d := tsn - sack.Cum; d == 0 || d > 1<<31 {
+					return true
+				}
+				for _, g := range sack.Gaps {
+					if off := tsn - sack.Cum; off >= uint32(g[0]) && off <= uint32(g[1]) {
+						return true
+					}
+				}
+				return false
+			}
+			for tsn := range ntx {
+				if !acked[tsn] && covered(tsn) {
+					newly = append(newly, tsn)
+					acked[tsn] = true
+				}
+			}
+			if s0 == s1 && v0 == v1 {
+				continue
+			}
+			samples++
+			ok := false
+			var cands []string
+			for _, tsn := range newly {
+				if ntx[tsn] != 1 {
+					continue
+				}
+				r := float64((arrive - first[tsn]).Microseconds()) / 1000
+				var es, ev float64
+				if s0 == 0 {
+					es, ev = r, r/2
+				} else {
+					ev = (1-rtoBeta)*v0 + rtoBeta*math.Abs(s0-r)
+					es = (1-rtoAlpha)*s0 + rtoAlpha*r
+				}
+				cands = append(cands, fmt.Sprintf("tsn %d rtt %.3f -> (%.4f,%.4f)", tsn, r, es, ev))
+				if math.Abs(es-s1) < 0.02 && math.Abs(ev-v1) < 0.02 {
+					ok = true
+				}
+			}
+			if !ok {
+				once := 0
+				for _, tsn := range newly {
+					if ntx[tsn] == 1 {
+						once++
+					}
+				}
+				if once == 0 {
+					c.fail("rtt-sample-from-retransmitted-chunk", "t=%v: SACK(cum=%d gaps=%v) newly acknowledges %v, all of which had been retransmitted (transmissions %v), yet (SRTT,RTTVAR) went (%.4f,%.4f) -> (%.4f,%.4f)",
+						arrive, sack.Cum, sack.Gaps, newly, ntx, s0, v0, s1, v1)
+				} else {
+					c.fail("rtt-sample-wrong", "t=%v: SACK(cum=%d gaps=%v): (SRTT,RTTVAR) went (%.4f,%.4f) -> (%.4f,%.4f), which is not one RFC 6298 update from the round trip of any newly acknowledged once-transmitted chunk: candidates %v",
+						arrive, sack.Cum, sack.Gaps, s0, v0, s1, v1, cands)
+				}
+			}
+		}
+		if c.Verdict == "" {
+			// Karn-relevant: an acknowledgement that newly covered only retransmitted chunks happened
+			_, ntx := txInfo(s.net.now())
+			for _, n := range ntx {
+				if n >= 2 {
+					karnCases++
+				}
+			}
+			if r := a.rtoMgr.getRTO(); r < 1000 || r > float64(e1.Cfg[0].rtoMax().Milliseconds()) {
+				c.fail("rto-out-of-bounds", "RTO %v outside [1000,%v]", r, e1.Cfg[0].rtoMax().Milliseconds())
+			}
+			if a.BufferedAmount() != 0 {
+				c.Skip = false
+				c.class("not-drained-in-40s")
+			}
+		}
+		if karnCases > 0 {
+			c.class("retransmitted-chunks-acknowledged")
+		}
+		if samples > 0 {
+			c.class("rtt-sample-taken")
+		}
+		gapAck := false
+		for i := 1; i < len(x.Lose); i++ {
+			if x.Lose[i] < x.Lose[i-1] {
+				gapAck = true
+			}
+		}
+		if gapAck {
+			c.class("gap-acks")
+		}
+		c.Nontrivial = karnCases > 0 && samples > 0
+	})
+	if pm != "" && c.Verdict == "" {
+		c.fail("bubble-panic", "bubble: %s", pm)
+	}
+	return c
+}
+
 func TestVF_C19(t *testing.T) {
 	vfExplore(t, "C19", "rto", vfN(16000, 400000), genC19RTO, runC19RTO)
 	vfExplore(t, "C19", "rtxtimer", vfN(8000, 200000), genC19Timer, func(sc c19Timer) vfCase { return runC19Timer(t, sc) })
 	vfExplore(t, "C19", "acktimer", vfN(8000, 200000), genC19Timer, func(sc c19Timer) vfCase { return runC19AckTimer(t, sc) })
+	vfExplore(t, "C19", "karn", vfN(1600, 40000), genC19Karn, func(x c19Karn) vfCase { return runC19Karn(t, x, vfEnv.Replay != "") })
 	vfExplore(t, "C19", "wire", vfN(640, 16000), genC19Wire, func(sc c19Wire) vfCase { return runC19Wire(t, sc, vfEnv.Replay != "") })
 	vfExplore(t, "C19", "sack-timing", vfN(3200, 80000), genC19Sack, func(sc c19Sack) vfCase { return runC19Sack(t, sc, vfEnv.Replay != "") })
 	vfExplore(t, "C19", "heartbeat", vfN(800, 20000), genC19HB, func(x c19HB) vfCase { return runC19HB(t, x, vfEnv.Replay != "") })
